@@ -285,9 +285,30 @@ func (w *smWorld) arith() {
 	t, c := w.c.Tape, w.c
 	R, C := w.R, w.C
 	res := make([]float64, R*C)
-	kind := t.Choose(8)
+	kind := t.Choose(10)
 	var name string
 	switch kind {
+	case 8:
+		// division by a matrix without zeros
+		a, am, sa := w.operand(R, C)
+		_, bm, sb := w.operand(R, C)
+		bm = nonzero(bm)
+		b := mkMatrix(w.e, sb == storageName(true), R, C, bm)
+		name = "MdivM"
+		for i := range res {
+			res[i] = w.e.norm(am[i] / bm[i])
+		}
+		c.Logf("a.MdivM(%s %s, %s %s)", sa, fmtVals(am), sb, fmtVals(bm))
+		w.guard(name, func() { w.a.MdivM(a, b) })
+	case 9:
+		a, am, sa := w.operand(R, C)
+		x := nzval(t, w.e)
+		name = "MdivS"
+		for i := range res {
+			res[i] = w.e.norm(am[i] / x)
+		}
+		c.Logf("a.MdivS(%s %s, %g)", sa, fmtVals(am), x)
+		w.guard(name, func() { w.a.MdivS(a, ad.NewScalar(w.e.t, x)) })
 	case 0, 1, 2:
 		a, am, sa := w.operand(R, C)
 		b, bm, sb := w.operand(R, C)
